@@ -104,11 +104,14 @@ def locksets(mod, f, entry=frozenset()):
 _entry_cache = {}
 
 
-def entry_locks(mod):
+def entry_locks(mod, context=None):
     """locks that are held at *every* call site of a function (interprocedural must-held set at entry).  Functions without a caller, and functions whose
-    address is taken (thread start routines), start with the empty set.  Greatest fixpoint over the direct call graph."""
-    if id(mod) in _entry_cache:
-        return _entry_cache[id(mod)]
+    address is taken (thread start routines), start with the empty set.  Greatest fixpoint over the direct call graph.  With `context` (a set of function
+    names, e.g. everything reachable from the worker routine) only call sites inside that context count: a helper that is also used by the single-threaded
+    set-up code is judged by its uses while the threads run."""
+    key_ = (id(mod), frozenset(context) if context is not None else None)
+    if key_ in _entry_cache:
+        return _entry_cache[key_]
     taken = set()
     for f in mod.funcs.values():
         for i in f.insts():
@@ -118,13 +121,15 @@ def entry_locks(mod):
     TOP = None
     entry = {}
     for f in mod.funcs.values():
-        cs = [c for c in mod.callers.get(f.name, []) if c.fn.name != f.name]
+        cs = [c for c in mod.callers.get(f.name, []) if c.fn.name != f.name and (context is None or c.fn.name in context)]
         entry[f.name] = TOP if (cs and f.name not in taken) else frozenset()
     # only functions that sit below a lock region matter; iterate a few rounds
     for _ in range(40):
         changed = False
         cand = {}
         for f in mod.funcs.values():
+            if context is not None and f.name not in context:
+                continue
             e = entry[f.name]
             if e is TOP:
                 continue
@@ -149,7 +154,7 @@ def entry_locks(mod):
     for k, v in entry.items():
         if v is TOP:
             entry[k] = frozenset()
-    _entry_cache[id(mod)] = entry
+    _entry_cache[key_] = entry
     return entry
 
 
@@ -251,7 +256,7 @@ def rule_L2_guarded_by(mod, rep, config="pthread"):
                 if not hit:
                     continue
                 if held_at is None:
-                    held_at, _ = locksets(mod, f, entry_locks(mod).get(f.name, frozenset()))
+                    held_at, _ = locksets(mod, f, entry_locks(mod, wc).get(f.name, frozenset()))
                     rep.scope([f.name])
                 n += 1
                 key = "%s#%s#%s" % (f.name, cell, i.op)
